@@ -10,7 +10,7 @@ from checks import gb_src43 as S
 META = {
     "engine": "gen", "level": "exploration", "design_ref": "DESIGN.md §4.4 C43",
     "technique": "the generator's own runtime monitor: brick configurations harvested from the repository's test behaviours are regenerated with @CompareToNumericalJacobian (+ perturbation and criterion) and mfront --debug, driven along strain paths in a worker process whose stdout (mismatch blocks, Newton iteration reports) is captured and parsed",
-    "text": "Every StandardElastoViscoPlasticity / StandardElasticity / DDIF2 brick file of mfront/tests/behaviours that uses an analytical jacobian is a configuration (stress potential x criterion x flow x isotropic/kinematic hardening x porosity nucleation). Quick: a greedy pairwise-covering sample of 9 configurations; thorough: all of them. Each is regenerated with the comparison keywords injected (hypotheses Tridimensional, PlaneStress, AxisymmetricalGeneralisedPlaneStress when the file supports all), compiled and driven along three strain paths (tension with partial unloading, shear, triaxial tension; about 30 steps each, elastic then inelastic). The behaviour compares its analytical jacobian blocks with centred finite differences at every Newton iterate and prints a block when they differ by more than its criterion: zero such blocks are expected. A first pass with the criterion set to 0 at run time makes every compared block visible (evidence: iterates and blocks really compared, largest difference per configuration). Judged: the comparison made at the converged state of every step (all calls request the consistent tangent operator), for blocks whose column unknown moved by more than 100 perturbations, relatively to the largest entry of the block when it exceeds 1, and only when the difference is the same (factor 2) with perturbations x10 and /10 (finite-difference truncation scales with the square of the perturbation, a wrong analytical term does not). Intermediate iterates (unknowns not observable: kinks at zero increments, status switches, frozen porosity of the staggered scheme) are counted, not judged.",
+    "text": "Configuration space = (a) every StandardElastoViscoPlasticity / StandardElasticity / DDIF2 brick file of mfront/tests/behaviours that uses an analytical jacobian (103 files) and (b) synthesised StandardElastoViscoPlasticity files: every stress criterion registered in the brick factory (checked against `mfront --list-stress-criteria`: Mises, Hill, Hosford, Barlat, Drucker 1949, Cazacu 2001, isotropic/orthotropic Cazacu 2004, MohrCoulomb, GTN, Rousselier-Tanguy-Besson, Michel-Suquet) x {associated, non associated with a deviatoric flow criterion, non associated with a non deviatoric one} x {Plastic, Norton, HyperbolicSine} x {no hardening, linear isotropic, Armstrong-Frederick} = 324 files, MPa, screened by running the generator (combinations it rejects are counted). Quick: for every criterion one associated and one non associated synthesised configuration (flows and hardenings rotating; criteria with a non deviatoric normal are taken with a deviatoric flow criterion and a viscoplastic flow) + the harvested files that bring every nucleation model, the other flows and stress potentials (35 configurations); thorough: everything. Each is regenerated with the comparison keywords injected (hypotheses Tridimensional, PlaneStress, AxisymmetricalGeneralisedPlaneStress when the file supports all), compiled and driven along three strain paths (tension with partial unloading, shear, triaxial tension; about 30 steps each, elastic then inelastic). The behaviour compares its analytical jacobian blocks with centred finite differences at every Newton iterate and prints a block when they differ by more than its criterion: zero such blocks are expected. A first pass with the criterion set to 0 at run time makes every compared block visible (evidence: iterates and blocks really compared, largest difference per configuration). Judged: the comparison made at the converged state of every step (all calls request the consistent tangent operator), for blocks whose column unknown moved by more than 100 perturbations, relatively to the largest entry of the block when it exceeds 1, and only when the difference is the same (factor 2) with perturbations x10 and /10 at 3 converged states at least (finite-difference truncation scales with the square of the perturbation, a wrong analytical term does not). Intermediate iterates (unknowns not observable: kinks at zero increments, status switches, frozen porosity of the staggered scheme) are counted, not judged.",
     "note": "Trusted: the comparison code emitted by NonLinearSystemSolverBase::writeComparisonToNumericalJacobian and operator<< of the tensor types (only used to read back the differences). Criterion 1e-6 (absolute, times the block size as the generated code does), perturbation 1e-9 on strain-like unknowns. Configurations needing unknown material properties or external files that are not found are skipped and listed.",
 }
 
@@ -213,8 +213,13 @@ def build(ctx):
         elif gbx.tool_could_not_start(log) or gbx.tool_could_not_start(log0):
             raise vfcore.HarnessFailure("mfront could not start (build tree being relinked?): %s" % (log + log0)[-800:])
         elif s.get("synth"):
-            ctx.violation("%s:does-not-build" % s["name"], "synthesised configuration accepted by mfront does not generate/compile:\n%s" % log[-3000:],
-                          {"text": s["text"], "log": log[-8000:]})
+            c = s["cfg"]
+            errs = [l for l in log.splitlines() if " error" in l][:6]
+            # one key per (criterion, associativity): the flow and the hardening do not matter for a compilation failure
+            ctx.violation("VfB_%s_%s:does-not-build" % (c["crit"], {"associated": "A", "deviatoric": "ND", "non-deviatoric": "NN"}[c["assoc"]]),
+                          "synthesised configuration %s, accepted by mfront, generates code that does not compile:\n%s" % (s["name"], "\n".join(errs)[:3000]),
+                          {"configuration": s["name"], "text": s["text"], "errors": errs, "log": log[-8000:]})
+            skipped[s["name"]] = "generated code does not compile"
         elif orig_ok:
             ctx.violation("%s:does-not-build-with-comparison" % s["name"],
                           "the file builds unmodified but not with @CompareToNumericalJacobian injected:\n%s" % log[-3000:],
@@ -284,7 +289,10 @@ def run(ctx):
                        "probe_max_difference_over_threshold": [float("%.3g" % worst_ratio[0]), worst_ratio[1]]}
         if not judged:
             ctx.maxstat("max_difference_over_threshold (configurations without mismatch)", worst_ratio[0])
-        if st["iterates"] < 20 or len(st0["blocks"]) < 1:
+        if st["converged"] < 20:
+            # (every step fails: nothing to compare; listed, and the run is inconclusive when this is not exceptional)
+            ctx.cov.setdefault("could_not_be_driven", {})[name] = "%d converged steps of %d" % (st["converged"], st["steps"])
+        elif st["iterates"] < 20 or len(st0["blocks"]) < 1:
             # (a linear residual gives identical analytical and numerical blocks: few of them are printed even with a
             # criterion of 0; the comparison code runs once per Newton iterate)
             ctx.inconc("%s: the comparison hardly ran (%d iterates, %d blocks seen with criterion 0)" % (name, st["iterates"], len(st0["blocks"])))
@@ -312,9 +320,19 @@ def run(ctx):
             table[name]["mismatch_blocks_confirmed"] = {k: len(v) for k, v in confirmed.items()}
             table[name]["confirmation_runs_blocks"] = [len(d) for d in others]
             for nm, wit in sorted(confirmed.items()):
+                if len(wit) < 3:
+                    # A wrong analytical term shows at every converged inelastic step (6 to 4000 comparisons for the defects
+                    # found so far).  One or two comparisons out of hundreds of the same block happen when the steps of the
+                    # three runs are not the same states (the paths of non smooth criteria are sensitive: a step halved in one
+                    # run only) or when a kink of the criterion lies inside the stencil: counted and listed, not reported.
+                    ctx.count("isolated-mismatch (fewer than 3 comparisons of the block)")
+                    table[name].setdefault("isolated_mismatches", {})[nm] = [(b["hyp"], b["loading"], b["step"], b["err"], b["thr"]) for b in wit]
+                    continue
                 w5 = [(b["hyp"], b["loading"], b["step"], b["iterate"], b["err"], b["thr"]) for b in wit[:6]]
                 ctx.violation("%s:%s" % (name, nm), "analytical and numerical jacobian blocks %s differ above the criterion at %d iterates in %s, "
                               "by the same amount with perturbations 1e-8, 1e-9, 1e-10; first: %s" % (nm, len(wit), sorted({b["hyp"] for b in wit}), w5),
                               {"configuration": name, "features": s["features"], "block": nm, "witnesses": wit[:20], "text": s["text"]})
+    nd = len(ctx.cov.get("could_not_be_driven", {}))
+    ctx.require(nd <= max(1, len(table) // 20), "%d configurations of %d could not be driven: %s" % (nd, len(table), sorted(ctx.cov.get("could_not_be_driven", {}))))
     if not os.environ.get("VF_C43_ONLY"):
         ctx.require(len(table) >= (6 if not ctx.thorough else 60), "too few configurations were driven (%d)" % len(table))
